@@ -25,7 +25,12 @@ def parse_frames(path, nparticle):
         lines.pop()
     frames = []
     i = 0
+    per_frame = nparticle if isinstance(nparticle, (list, tuple)) else None
     while i < len(lines):
+        if per_frame is not None:
+            if len(frames) >= len(per_frame):
+                raise ValueError(f"more than {len(per_frame)} frames in the file")
+            nparticle = per_frame[len(frames)]
         if not lines[i].split():          # blank separator lines are tolerated by the reader? no:
             raise ValueError(f"blank line {i}")
         head = lines[i].split()
@@ -179,6 +184,8 @@ class World(WorldBase):
                 "layout": rng.choice(["random", "lattice", "cluster"]),
                 "ppp": [rng.choice([1, 1, 1, 0]) for _ in range(ndim)],
                 "cells": rng.choice(["const", "const", "vary"]),
+                "nvary": rng.random() < 0.25,
+                "tvary": rng.random() < 0.2,
                 "subseed": rng.randrange(1 << 40),
             }
             c = Config(rec)
@@ -199,13 +206,13 @@ class World(WorldBase):
             if cfg.exact:
                 kind = op["kind"] = "cutoff"     # ties make N-nearest undecidable there
             else:
-                top = cfg.N - 1
+                top = cfg.Nmin - 1
                 op["n"] = rng.choice([1, 2, top, top, max(1, top - 1)] + list(range(1, top + 1)))
         def by_target():
             # a cutoff that gives some particle exactly k neighbours, k uniform over 1..N-2: every
             # coordination number (and every digit / power-of-two boundary) is as likely as any other
             D = cfg.tables[rng.randrange(cfg.T)][0]
-            d = sorted(D[rng.randrange(cfg.N)])[1:]
+            d = sorted(D[rng.randrange(D.shape[0])])[1:]
             k = rng.randint(1, max(1, len(d) - 1))
             return round(0.5 * (d[k - 1] + d[k]), 9) if k < len(d) else round(d[-1] * 1.01, 9)
 
@@ -291,7 +298,7 @@ class World(WorldBase):
             raise Refuse("no config")
         cfg = self.configs[op["cfg"]]
         kind, path = op["kind"], op["path"]
-        if kind == "Nnearests" and not (1 <= op["n"] <= cfg.N - 1):
+        if kind == "Nnearests" and not (1 <= op["n"] <= cfg.Nmin - 1):
             raise Refuse("N out of range")
         if kind == "cutoff_types" and len(op["rc"]) != cfg.K:
             raise Refuse("matrix shape")
@@ -344,7 +351,7 @@ class World(WorldBase):
         symmetric for a global cutoff."""
         path, kind = op["path"], op["kind"]
         try:
-            frames = parse_frames(path, cfg.N)
+            frames = parse_frames(path, list(cfg.Ns))
         except (ValueError, IndexError, FileNotFoundError) as e:
             raise Violation(f"C05/file-layout:{tag}", f"{e} in {path} for {self._describe(op)}")
         if len(frames) != cfg.T:
@@ -361,7 +368,7 @@ class World(WorldBase):
                 exp = cfg.expect_cutoff_types(t, op["rc"])
             D = cfg.tables[t][0]
             ids = [r[0] for r in rows]
-            if sorted(ids) != list(range(1, cfg.N + 1)):
+            if sorted(ids) != list(range(1, cfg.Ns[t] + 1)):
                 raise Violation(f"C05/file-ids:{tag}", f"frame {t}: ids {ids[:10]}")
             listed = {}
             for pid, cn, items in rows:
@@ -451,7 +458,8 @@ class World(WorldBase):
             raise Refuse("at end")
         nmax = op["nmax"]
         f = d["f"]
-        fn = (lambda: read_neighbors(f, cfg.N)) if nmax is None else (lambda: read_neighbors(f, cfg.N, nmax))
+        n_t = cfg.Ns[d["cursor"]]
+        fn = (lambda: read_neighbors(f, n_t)) if nmax is None else (lambda: read_neighbors(f, n_t, nmax))
         fault = op.get("fault")
         res, exc, (nev, dig, fired) = self.call(fn, fault)
         tag = f"read_frame:{fi['kind']}"
@@ -466,7 +474,7 @@ class World(WorldBase):
             raise Violation(f"C05/reader-raised:{tag}", f"{exc[0]}: {exc[1]} at frame {d['cursor']} of {d['path']} Nmax={nmax}")
         rows = fi["frames"][d["cursor"]]
         eff = 200 if nmax is None else nmax
-        want = expected_read(rows, cfg.N, eff, fi["weights"])
+        want = expected_read(rows, n_t, eff, fi["weights"])
         if not isinstance(res, np.ndarray):
             raise Violation(f"C05/frame-shape:{tag}", f"returned {type(res).__name__}")
         if res.dtype != want.dtype:
